@@ -169,11 +169,15 @@ Definition in_support (k : dist) (ps : list Q) (x : Q) : bool :=
                                      __enter__ returns fd = None and the row is silently dropped)
      Checked  --write-->  Written   the lock file now carries this task's pass (write tmp + os.rename)
      Written  --verify--> Holding   if the lock file still carries this task's pass, else back to Idle
-     Holding  --release-> DoneOk    if the lock file still carries this task's pass: lock emptied, buffered row
-                                    flushed to the result file
-                          DoneLost  otherwise ("owned by another locker", code 4): the file object is neither
-                                    flushed nor closed; the pool worker ends with os._exit, the row never
-                                    reaches the file *)
+     Holding  --release-> DoneOk    the row is in the result file.  The work package writes the row into the buffered
+                                    file object and (since commit 1d8733c) flushes it while it still believes it holds
+                                    the lock; release_lock then empties the lock file if it still carries this task's
+                                    pass and otherwise refuses ("owned by another locker", code 4) and neither flushes
+                                    nor closes the file object - harmless once the row has been flushed.
+                          DoneLost  [early = false] the code before 1d8733c: no flush of its own, so after a refused
+                                    release the row stays in the buffer; the pool worker ends with os._exit and the
+                                    row never reaches the file.
+   [early] selects the two variants: lstep / lrun are the current code, lstep_pinned / lrun_pinned the earlier one. *)
 Inductive phase : Type := PIdle | PChecked | PWritten | PHolding | PDoneOk | PDoneLost.
 Inductive action : Type := Step | Timeout.
 
@@ -188,7 +192,7 @@ Definition owned_by (l : option nat) (t : nat) : bool :=
 Definition setp (ph : nat -> phase) (t : nat) (p : phase) : nat -> phase :=
   fun u => if Nat.eqb u t then p else ph u.
 
-Definition lstep (st : lstate) (t : nat) (a : action) : lstate :=
+Definition lstep_gen (early : bool) (st : lstate) (t : nat) (a : action) : lstate :=
   match phases st t, a with
   | PIdle, Step => if free_for (lock st) t then LS (lock st) (setp (phases st) t PChecked) (file st) else st
   | PIdle, Timeout => LS (lock st) (setp (phases st) t PDoneLost) (file st)
@@ -196,15 +200,21 @@ Definition lstep (st : lstate) (t : nat) (a : action) : lstate :=
   | PWritten, Step => if owned_by (lock st) t then LS (lock st) (setp (phases st) t PHolding) (file st)
                       else LS (lock st) (setp (phases st) t PIdle) (file st)
   | PHolding, Step => if owned_by (lock st) t then LS None (setp (phases st) t PDoneOk) (file st ++ [t])
+                      else if early then LS (lock st) (setp (phases st) t PDoneOk) (file st ++ [t])
                       else LS (lock st) (setp (phases st) t PDoneLost) (file st)
   | _, _ => st
   end.
 
-Fixpoint lrun (st : lstate) (sched : list (nat * action)) : lstate :=
+Fixpoint lrun_gen (early : bool) (st : lstate) (sched : list (nat * action)) : lstate :=
   match sched with
   | [] => st
-  | (t, a) :: r => lrun (lstep st t a) r
+  | (t, a) :: r => lrun_gen early (lstep_gen early st t a) r
   end.
+
+Definition lstep : lstate -> nat -> action -> lstate := lstep_gen true.          (* current code *)
+Definition lrun : lstate -> list (nat * action) -> lstate := lrun_gen true.
+Definition lstep_pinned : lstate -> nat -> action -> lstate := lstep_gen false.  (* before 1d8733c *)
+Definition lrun_pinned : lstate -> list (nat * action) -> lstate := lrun_gen false.
 
 Definition critical (p : phase) : bool :=
   match p with PChecked | PWritten | PHolding => true | _ => false end.
@@ -222,5 +232,9 @@ Definition double_acquire_schedule : list (nat * action) :=
   [(1, Step);              (* B checks: lock free *)
    (0, Step); (0, Step); (0, Step);   (* A checks, writes, verifies: A holds *)
    (1, Step); (1, Step);   (* B writes over A's pass, verifies: B holds too *)
-   (0, Step);              (* A releases: owned by B -> row lost *)
-   (1, Step)]%nat.         (* B releases: row written *)
+   (0, Step);              (* A's row, then its release: owned by B, refused (pinned code: row lost) *)
+   (1, Step)]%nat.         (* B's row and release *)
+
+(* the lock is held by somebody else until task 0 gives up: its row is dropped (both variants) *)
+Definition timeout_schedule : list (nat * action) :=
+  [(1, Step); (1, Step); (1, Step); (0, Step); (0, Timeout); (1, Step)]%nat.
